@@ -346,6 +346,11 @@ class TMGRSchedulingComponent(rpu.ClientComponent):
         task['task_sandbox'     ] = str(self._session._get_task_sandbox(task, pilot))
         task['task_sandbox_path'] = ru.Url(task['task_sandbox']).path
 
+        # the task manager needs to know where the task went, for example to
+        # fail it when that pilot dies: publish the task in full with the next
+        # state update (otherwise only uid, type and state are published)
+        task['$all'] = True
+
         with self._tasks_lock:
             if pid not in self._tasks:
                 self._tasks[pid] = list()
